@@ -708,7 +708,10 @@ func (c *Ctx) c02Pop3() {
 				if !ok || eng.StaticCallee(call.Common()) != send {
 					return
 				}
-				arg := call.Call.Args[len(call.Call.Args)-1]
+				arg := sendTextArg(call)
+				if arg == nil {
+					return
+				}
 				if _, isC := arg.(*ssa.Const); isC {
 					return
 				}
@@ -800,7 +803,11 @@ func (c *Ctx) c02Pop3() {
 				if !ok || eng.StaticCallee(call.Common()) != send {
 					return false
 				}
-				s, isC := eng.ConstString(call.Call.Args[len(call.Call.Args)-1])
+				a := sendTextArg(call)
+				if a == nil {
+					return false
+				}
+				s, isC := eng.ConstString(a)
 				return isC && s == "."
 			}
 			if ret := (&eng.Search{Target: eng.IsReturnOf(fn), Avoid: isTerm, Deep: true}).After(sc); ret != nil && !eng.IsRecoverBlock(ret.Block()) {
@@ -811,6 +818,170 @@ func (c *Ctx) c02Pop3() {
 		}
 	}
 	r.Floor("C02/POP3/lines", "scanners over message sources in pop3", n, 1)
+	c.c02SendVerbatim(send)
+}
+
+// sendTextArg: the text argument of a call of the session's send function: its first
+// string-typed argument.
+func sendTextArg(call *ssa.Call) ssa.Value {
+	for i, a := range call.Call.Args {
+		if !isString(a.Type()) {
+			continue
+		}
+		// printf-style send("%s", line): the text is the single formatted operand
+		if f, isC := eng.ConstString(a); isC && (f == "%s" || f == "%v") && i+1 < len(call.Call.Args) {
+			if sl, ok := call.Call.Args[i+1].(*ssa.Slice); ok {
+				if al, ok := sl.X.(*ssa.Alloc); ok {
+					var elems []ssa.Value
+					for _, ref := range *al.Referrers() {
+						if ia, ok := ref.(*ssa.IndexAddr); ok {
+							for _, r2 := range *ia.Referrers() {
+								if st, ok := r2.(*ssa.Store); ok {
+									elems = append(elems, st.Val)
+								}
+							}
+						}
+					}
+					if len(elems) == 1 {
+						if mi, ok := elems[0].(*ssa.MakeInterface); ok {
+							return mi.X
+						}
+						return elems[0]
+					}
+				}
+			}
+		}
+		return a
+	}
+	return nil
+}
+
+// c02SendVerbatim: the function through which message lines leave on the POP3 connection
+// writes its text parameter unchanged (plus a constant line ending). Interpreting the text
+// (as a format string, through a template, a replacer …) rewrites message bytes.
+func (c *Ctx) c02SendVerbatim(send *ssa.Function) {
+	r, p := c.R, c.P
+	var text *ssa.Parameter
+	for _, prm := range send.Params {
+		if isString(prm.Type()) {
+			text = prm
+			break
+		}
+	}
+	cons := shortFn(send) + ":verbatim"
+	if text == nil {
+		r.Undecided("C02/POP3/lines", cons, p.Pos(send.Pos()), "send has no string parameter")
+		return
+	}
+	// derived: values that are the text, the text plus/after a constant, or a byte/interface view
+	derived := map[ssa.Value]bool{text: true}
+	var bad []string
+	for changed := true; changed; {
+		changed = false
+		eng.EachInstr(send, func(in ssa.Instruction) {
+			v, isV := in.(ssa.Value)
+			if !isV || derived[v] {
+				return
+			}
+			switch x := in.(type) {
+			case *ssa.BinOp:
+				if x.Op == token.ADD && (derived[x.X] || derived[x.Y]) {
+					_, cx := x.X.(*ssa.Const)
+					_, cy := x.Y.(*ssa.Const)
+					if cx || cy {
+						derived[v], changed = true, true
+					}
+				}
+			case *ssa.Convert:
+				if derived[x.X] {
+					derived[v], changed = true, true
+				}
+			case *ssa.MakeInterface:
+				if derived[x.X] {
+					derived[v], changed = true, true
+				}
+			case *ssa.Phi:
+				for _, e := range x.Edges {
+					if derived[e] {
+						derived[v], changed = true, true
+					}
+				}
+			case *ssa.Slice:
+				// variadic pack holding a derived value
+				if al, ok := x.X.(*ssa.Alloc); ok {
+					for _, ref := range *al.Referrers() {
+						if ia, ok := ref.(*ssa.IndexAddr); ok {
+							for _, r2 := range *ia.Referrers() {
+								if st, ok := r2.(*ssa.Store); ok && derived[st.Val] {
+									derived[v], changed = true, true
+								}
+							}
+						}
+					}
+				}
+			}
+		})
+	}
+	written := false
+	eng.EachInstr(send, func(in ssa.Instruction) {
+		call, ok := in.(*ssa.Call)
+		if !ok {
+			return
+		}
+		name := eng.CalleeName(call.Common())
+		fmtIdx := -1
+		switch name {
+		case "fmt.Sprintf", "fmt.Errorf", "fmt.Printf":
+			fmtIdx = 0
+		case "fmt.Fprintf":
+			fmtIdx = 1
+		}
+		if fmtIdx >= 0 && fmtIdx < len(call.Call.Args) && derived[call.Call.Args[fmtIdx]] {
+			// printf-style send: fine as long as every caller passes a constant format
+			var offenders []string
+			for _, cs := range p.StaticCallSites(send) {
+				i := eng.ParamIndex(text)
+				if i < 0 || i >= len(cs.Args) {
+					continue
+				}
+				if _, isC := cs.Args[i].(*ssa.Const); !isC && derivesFromScannerText(cs.Args[i], 0) {
+					offenders = append(offenders, p.InstrPos(cs.Instr.(ssa.Instruction)))
+				}
+			}
+			sort.Strings(offenders)
+			if len(offenders) > 0 {
+				bad = append(bad, "the text parameter is the format string of "+name+" at "+p.InstrPos(call)+" and is given message lines at "+strings.Join(offenders, ", ")+": every '%' in a message line is rewritten")
+			} else {
+				written = true
+			}
+			return
+		}
+		switch name {
+		case "fmt.Fprint", "fmt.Fprintf", "io.WriteString", "(*bufio.Writer).WriteString", "(*bufio.Writer).Write", "(*net/textproto.Writer).PrintfLine":
+			for i, a := range call.Call.Args {
+				if i > 0 && derived[a] {
+					written = true
+				}
+			}
+		default:
+			if call.Call.IsInvoke() && call.Call.Method.Name() == "Write" {
+				for _, a := range call.Call.Args {
+					if derived[a] {
+						written = true
+					}
+				}
+			}
+		}
+	})
+	sort.Strings(bad)
+	switch {
+	case len(bad) > 0:
+		r.Bad("C02/POP3/lines", cons, p.Pos(send.Pos()), "%s", strings.Join(bad, "; "))
+	case !written:
+		r.Undecided("C02/POP3/lines", cons, p.Pos(send.Pos()), "cannot see the text parameter (or text+constant) being written to the connection: it may be transformed on the way")
+	default:
+		r.Ok("C02/POP3/lines", cons, p.Pos(send.Pos()), "the text parameter is written to the connection unchanged apart from a constant line ending")
+	}
 }
 
 // stuffingShape: the values returned by helper g for a line parameter are the line itself
@@ -870,4 +1041,25 @@ func stuffingShape(rets []ssa.Value, line *ssa.Parameter, g *ssa.Function) strin
 		return "no dot-stuffed alternative for the sent line"
 	}
 	return ""
+}
+
+// derivesFromScannerText: v is (*bufio.Scanner).Text(), possibly prefixed/suffixed by
+// constants or merged by a phi.
+func derivesFromScannerText(v ssa.Value, depth int) bool {
+	if depth > 5 {
+		return false
+	}
+	switch x := v.(type) {
+	case *ssa.Call:
+		return eng.CalleeName(x.Common()) == "(*bufio.Scanner).Text"
+	case *ssa.BinOp:
+		return x.Op == token.ADD && (derivesFromScannerText(x.X, depth+1) || derivesFromScannerText(x.Y, depth+1))
+	case *ssa.Phi:
+		for _, e := range x.Edges {
+			if derivesFromScannerText(e, depth+1) {
+				return true
+			}
+		}
+	}
+	return false
 }
